@@ -204,10 +204,17 @@ def main(prop, tier, only=None, engine=None):
             seen.add((role, path))
             print("VIOLATION property=%s replay=%s" % (prop, path))
             print("  role=%s: %s" % (role, desc))
-    elif inconclusive:
-        rc = 2
+    else:
+        # a query / harness that merely ran out of its time budget was NOT EXPLORED: it is reported (here and in the evidence) and
+        # does not turn the verdict of what WAS explored into a failure -- unless nothing at all was decided. Everything else that
+        # is inconclusive (out of memory, vacuous harness, encoding error, a counterexample that does not replay) is exit 2.
+        hard = [(r_, w_) for r_, w_ in inconclusive if not (w_.startswith("kissat timeout") or w_.startswith("timeout after"))]
+        decided = cnt["checks"] > 0
+        if hard or (inconclusive and not decided):
+            rc = 2
     for role, why in inconclusive:
-        print("INCONCLUSIVE %s: %s" % (role, why))
+        tag = "NOT-EXPLORED (time budget)" if (why.startswith("kissat timeout") or why.startswith("timeout after")) else "INCONCLUSIVE"
+        print("%s %s: %s" % (tag, role, why))
 
     n_k = len(k_results); n_m = len(m_results)
     functions = sorted(set(spec.get("functions", [])) | set(f for r in m_results for f in r.get("functions", [])))
@@ -236,6 +243,7 @@ def main(prop, tier, only=None, engine=None):
             "solver_time_s": round(solver_time, 2),
             "known_findings_matched": [kf["what"] for kf in known_hits],
             "inconclusive": [{"role": r, "why": w} for r, w in inconclusive],
+            "not_explored_time_budget": [r for r, w in inconclusive if (w.startswith("kissat timeout") or w.startswith("timeout after"))],
             "engine_m_stats": m_stats,
             "partial_run": partial,
             "exhaustive": False,
